@@ -34,6 +34,13 @@ def run(ctx):
     ae = prog.one("creation::Graph::add_edge")
     key_discipline(ctx, prog, flows, "R-C09-6", prog.reachable_bodies([ae.path]), 2, 2, why=" -- restricted to add_edge and its callees: number_of_edges / size / density count the entries of `edges`, so a pair stored under a second key is counted twice")
 
+    # ------------------------------------------------------------------ R-C09-7
+    # number_of_nodes, the degree maps, degree_centrality's n-1 and the matrix dimension all count nodes_vec
+    from effects import Effects
+    from graphrules import node_append_behind_fresh_absence_test
+
+    node_append_behind_fresh_absence_test(ctx, prog, flows, Effects(prog, flows), "R-C09-7", "the same name is stored twice, so number_of_nodes, the per-node degree maps, degree_centrality's n-1, the density and the matrix dimension count a node that has no edges and no name of its own")
+
     # ------------------------------------------------------------------ R-C09-1
     ctx.rule("R-C09-1", "no edge count is taken from the number of keys of the pair-keyed edge stores on a multi-edge path")
     n = 0
